@@ -160,6 +160,7 @@ fn main() {
             // simx debug <PROP> <family> <label> : explore one scenario, print outcome statistics and one log.
             let fams = families(&args[2], "quick").unwrap();
             let fam = fams.iter().find(|f| f.name == args[3]).expect("family");
+            world::set_base_secs(fam.base_secs);
             let sc = fam.scenarios.iter().find(|s| s.label == args[4]).expect("scenario");
             let mut outcomes = std::collections::BTreeMap::new();
             let mut first = None;
@@ -207,6 +208,7 @@ fn main() {
                 if Some(sc.label.as_str()) != js["label"].as_str() {
                     continue;
                 }
+                world::set_base_secs(fam.base_secs);
                 // Watchdog: a replayed hang must not hang the replay.
                 let hang_s: f64 = std::env::var("VX_HANG_S").ok().and_then(|s| s.parse().ok()).unwrap_or(20.0);
                 let file = args[2].clone();
